@@ -24,6 +24,8 @@ DFrozen == /\ ndg = 0 /\ ph = "idle" /\ att = 0 /\ e = 0 /\ inq = <<>> /\ q = 0
 \* their own timers beyond the horizon of a case.
 AllOps == {"submit", "deliver", "tick", "conn_ok", "conn_fail", "reply", "wrong", "close"}
 LossOps == {"submit", "deliver", "tick", "conn_ok"}
+\* requests are answered, connections are left idle
+IdleOps == {"submit", "tick", "idle_tick", "conn_ok", "reply"}
 QuietSt == StScript("new", <<Call("set_response_timeout", 595000), Call("set_idle_timeout", 3600000)>>)
 MsS(route, rt) == MsScript(route, QuietSt, <<Call("set_response_timeout", rt)>>)
 DgS(rt, mr)    == DgScript("new", <<Call("set_read_timeout", rt), Call("set_max_retries", mr)>>)
@@ -32,12 +34,23 @@ GMsConfs  == {MsS("from", 300000)}
 GMsConfsT == {MsS("from", 300000), MsS("default", 200000)}
 \* every request is left without an answer: the response timeout at, inside
 \* and beyond the ends of its range, set twice, never set, by every route
+\* the stream connections under multi_stream: a response timeout of two
+\* ticks, the default (19 s: every tick), an idle timeout of n ticks
+ShortSt(rt, idl) == StScript("new", <<Call("set_response_timeout", rt), Call("set_idle_timeout", idl)>>)
+GMsInner  == {MsScript(r, ShortSt(TickMs + TickMs \div 2, 3600000), <<Call("set_response_timeout", 5 * TickMs + TickMs \div 2)>>) :
+                r \in {"from", "default"}}
+             \cup {MsScript("default", StScript("new", <<>>), <<Call("set_response_timeout", 3 * TickMs + TickMs \div 2)>>)}
+             \* below the range: 1 ms, every tick
+             \cup {MsScript("from", ShortSt(0, 3600000), <<Call("set_response_timeout", 2 * TickMs + TickMs \div 2)>>)}
+GMsIdle   == {MsScript(r, ShortSt(595000, idl), <<Call("set_response_timeout", 300000)>>) :
+                r \in {"from", "default"}, idl \in {0, 1, TickMs, TickMs + 1, 2 * TickMs + TickMs \div 2, 7200000}}
 GMsLoss   == {MsS(r, rt) : r \in {"from", "default"},
                            rt \in {0, 1, 100000, 100001, 500000, 599999, 600000, 600001, 3600000}}
              \cup {MsScript(r, QuietSt, <<>>) : r \in {"from", "default"}}
              \cup {MsScript("conn_new", StScript("new", <<>>), <<>>)}
              \cup {MsScript("from", QuietSt, <<Call("set_response_timeout", 700000),
                                               Call("set_response_timeout", 200000)>>)}
+             \cup GMsInner
 \* dgram_stream (one tick = 10 s)
 GXConfs   == {XScript("from_parts", DgS(10000, 1), MsS("from", 20000)),
               XScript("new_mut", DgS(10000, 0), MsS("default", 10000))}
@@ -48,6 +61,10 @@ GXLoss    == {XScript(r, DgS(rd, mr), MsS(mroute, rt)) :
              \cup {XScript(r, DgScript("new", <<>>), MsScript("default", StScript("new", <<>>), <<>>)) :
                     r \in {"from_parts", "new_mut", "new_set", "conn_new"}}
              \cup {XScript("new_mut", DgS(10000, mr), MsS("default", 20000)) : mr \in {2, 3}}
+             \* the stream connections of the TCP leg give up after two ticks
+             \cup {XScript(r, DgS(10000, 0), MsScript("from", ShortSt(15000, 3600000),
+                                                      <<Call("set_response_timeout", 45000)>>)) :
+                    r \in {"from_parts", "new_mut", "new_set"}}
 
 XMkOp(op, r, qq, c, d) == [op |-> op, r |-> r, q |-> qq, c |-> c, d |-> d]
 Lift(o) == XMkOp(o.op, o.r, o.q, o.c, NoDgram)
@@ -103,6 +120,7 @@ OpJson(o) == CASE o.op = "submit"  -> [op |-> "submit", r |-> o.r, q |-> o.q]
                [] o.op = "deliver" -> [op |-> "deliver", d |-> o.d]
                [] o.op \in {"reply", "wrong"} -> [op |-> o.op, r |-> o.r, c |-> o.c]
                [] o.op = "close"   -> [op |-> "close", c |-> o.c]
+               [] o.op = "idle_tick" -> [op |-> "tick"]
                [] OTHER            -> [op |-> o.op]
 
 CInit == /\ DFrozen /\ hist = <<>>
@@ -141,6 +159,7 @@ MAtMostOnce == Mode = "multi" => MAtMostOnceOf(st)
 MOnTime     == Mode = "multi" => MOnTimeOf(st)
 MOwn        == Mode = "multi" => MOwnOf(st)
 MNoDup      == Mode = "multi" => MNoDupOf(st)
+MConnsSound == MConnsSoundOf(IF Mode = "multi" THEN st ELSE st.m)
 XNoTruncated    == Mode = "dgst" => XNoTruncatedOf(st)
 XAtMostOnce     == Mode = "dgst" => XAtMostOnceOf(st)
 XTcpOnlyAfterTc == Mode = "dgst" => XTcpOnlyAfterTcOf(st)
